@@ -1,10 +1,12 @@
 ---------------------------- MODULE MC_Matchers ----------------------------
 (* Bounded configuration of Matchers (C16): the product of matchers that   *)
-(* are printed and parsed back, the semantic universe taken from Labels,   *)
+(* are printed and parsed back, the semantic universe (Labels.tla extended *)
+(* by MatchersSem.tla: multi-line values, dot / anchor / flag patterns),   *)
 (* and the invariants checked by TLC.  Gen_Matchers prints the cases.      *)
 EXTENDS Matchers, Json
 
 Lb == INSTANCE Labels
+Sx == INSTANCE MatchersSem
 
 CONSTANTS LV,         \* every input string up to this length is also used as a matcher value
           LN,         \* ... and, from length 1 to LN, as a matcher name
@@ -46,48 +48,91 @@ RoundTrips == ps.pc = "idle" =>
                 /\ \A ms \in ListsOf(inp) : RoundTripList(ms)
 
 -----------------------------------------------------------------------------
-(* Match semantics: the universe of Labels.tla, extended by label sets     *)
-(* with an explicitly empty value and the empty label set.                 *)
+(* Match semantics: MatchersSem (regular-expression fragment defined over   *)
+(* character sequences, '.' excluding the line feed) over the label sets    *)
+(* and matcher sets of Labels.tla, extended by label sets with an           *)
+(* explicitly empty value, the empty label set and multi-line values.       *)
 SemNames == {"a", "b", "c"}
-Pats     == {"x|y", ".*", ".+", "x.*", "x", "y?", ""}
-XNames   == DOMAIN Lb!LSets \cup {"L0", "L6", "L7"}
-XLS      == [n \in XNames |-> CASE n = "L0" -> << >>
-                                [] n = "L6" -> [a |-> ""]
-                                [] n = "L7" -> [b |-> "xy", c |-> ""]
-                                [] OTHER    -> Lb!LSets[n]]
-SemMatchers == {Lb!Eq(n, v) : n \in SemNames, v \in Lb!Values} \cup {Lb!Ne(n, v) : n \in SemNames, v \in Lb!Values}
-               \cup {Lb!Re(n, p) : n \in SemNames, p \in Pats} \cup {Lb!Nre(n, p) : n \in SemNames, p \in Pats}
-SemCore == {Lb!Eq("a", "x"), Lb!Ne("a", "x"), Lb!Eq("b", ""), Lb!Ne("c", ""), Lb!Re("a", "x"), Lb!Re("a", "x|y"),
-            Lb!Nre("b", ".+"), Lb!Nre("c", "x.*"), Lb!Re("c", "y?"), Lb!Ne("b", "y")}
+Pats     == Sx!Pats
+XNames   == DOMAIN Lb!LSets \cup {"L0", "L6", "L7", "L8", "L9", "L10", "L11", "L12"}
+XLS      == [n \in XNames |-> CASE n = "L0"  -> << >>
+                                [] n = "L6"  -> [a |-> ""]
+                                [] n = "L7"  -> [b |-> "xy", c |-> ""]
+                                [] n = "L8"  -> [a |-> "\n"]
+                                [] n = "L9"  -> [a |-> "x\ny", b |-> "x\n"]
+                                [] n = "L10" -> [a |-> "x\n", c |-> "\n"]
+                                [] n = "L11" -> [b |-> "\n", c |-> "x\ny"]
+                                [] n = "L12" -> [a |-> "\ny", b |-> "x\ny", c |-> "x\n"]
+                                [] OTHER     -> Lb!LSets[n]]
+SemMatchers == {Sx!Eq(n, v) : n \in SemNames, v \in Sx!Values} \cup {Sx!Ne(n, v) : n \in SemNames, v \in Sx!Values}
+               \cup {Sx!Re(n, p) : n \in SemNames, p \in Pats} \cup {Sx!Nre(n, p) : n \in SemNames, p \in Pats}
+SemCore == {Sx!Eq("a", "x"), Sx!Ne("a", "x"), Sx!Eq("b", ""), Sx!Ne("c", ""), Sx!Re("a", "x"), Sx!Re("a", "x|y"),
+            Sx!Nre("b", ".+"), Sx!Nre("c", "x.*"), Sx!Re("c", "y?"), Sx!Ne("b", "y")}
+\* a second core around the line feed: catch-all and dot patterns, dot-all, anchors, the literal
+SemCoreLF == {Sx!Re("a", ".*"), Sx!Nre("a", ".+"), Sx!Re("b", ".+"), Sx!Nre("c", ".*"), Sx!Re("b", "(?s).+"),
+              Sx!Re("a", "x.y"), Sx!Nre("c", "."), Sx!Re("a", "x$"), Sx!Eq("a", "x\n"), Sx!Ne("c", "\n"),
+              Sx!Re("b", "x\\ny"), Sx!Eq("b", "")}
 MSetRange == {Lb!MSets[k] : k \in DOMAIN Lb!MSets}
 SemSets == {<< <<m>> >> : m \in SemMatchers}
            \cup {<< <<m1, m2>> >> : m1 \in SemCore, m2 \in SemCore}
            \cup {<< <<m1>>, <<m2>> >> : m1 \in SemCore, m2 \in SemCore}
+           \cup {<< <<m1, m2>> >> : m1 \in SemCoreLF, m2 \in SemCoreLF}
+           \cup {<< <<m1>>, <<m2>> >> : m1 \in SemCoreLF, m2 \in SemCoreLF}
            \cup MSetRange \cup { << << >> >> }
 
 With(ls, n) == [x \in DOMAIN ls \cup {n} |-> IF x \in DOMAIN ls THEN ls[x] ELSE ""]
 
+\* the (pattern, value) pairs on which "'.' does not match the line feed" decides the verdict
+DotDecides == {pv \in Pats \X Sx!Values : (pv[2] \in Sx!Lang(pv[1])) # (pv[2] \in Sx!DotAllTab[pv[1]])}
+
+\* Labels.tla (hand-written languages, used by the other properties) is the restriction
+\* of MatchersSem to its single-line universe
+LabelsAgree ==
+  /\ Lb!Values \subseteq Sx!Values
+  /\ \A p \in Sx!OldPats : Lb!Lang(p) = Sx!Lang(p) \cap Lb!Values
+  /\ \A k \in DOMAIN Lb!MSets, n \in DOMAIN Lb!LSets :
+       Lb!MatchesAny(Lb!MSets[k], Lb!LSets[n]) = Sx!MatchesAny(Lb!MSets[k], Lb!LSets[n])
+
 SemLaws ==
+  /\ LabelsAgree
   /\ \A m \in SemMatchers, k \in XNames :
        LET ls == XLS[k] IN
-       /\ Lb!Matches(m, ls) = Lb!Matches(m, With(ls, m.n))                 \* missing label = ""
-       /\ Lb!Matches(Lb!Ne(m.n, m.v), ls) = ~Lb!Matches(Lb!Eq(m.n, m.v), ls)
-       /\ (m.v \in Pats => Lb!Matches(Lb!Nre(m.n, m.v), ls) = ~Lb!Matches(Lb!Re(m.n, m.v), ls))
+       /\ Sx!Matches(m, ls) = Sx!Matches(m, With(ls, m.n))                 \* missing label = ""
+       /\ Sx!Matches(Sx!Ne(m.n, m.v), ls) = ~Sx!Matches(Sx!Eq(m.n, m.v), ls)
+       /\ (m.v \in Pats => Sx!Matches(Sx!Nre(m.n, m.v), ls) = ~Sx!Matches(Sx!Re(m.n, m.v), ls))
   \* anchoring: whole-string match, also for an alternation
-  /\ ~Lb!Matches(Lb!Re("a", "x"), [a |-> "xy"])
-  /\ ~Lb!Matches(Lb!Re("a", "x|y"), [a |-> "xy"])
-  /\ Lb!Matches(Lb!Nre("a", "x"), [a |-> "xy"])
-  /\ Lb!Matches(Lb!Re("a", "x.*"), [a |-> "xy"])
+  /\ ~Sx!Matches(Sx!Re("a", "x"), [a |-> "xy"])
+  /\ ~Sx!Matches(Sx!Re("a", "x|y"), [a |-> "xy"])
+  /\ Sx!Matches(Sx!Nre("a", "x"), [a |-> "xy"])
+  /\ Sx!Matches(Sx!Re("a", "x.*"), [a |-> "xy"])
   \* negative matchers on an absent label
-  /\ Lb!Matches(Lb!Ne("c", "x"), [a |-> "x"]) /\ ~Lb!Matches(Lb!Ne("c", ""), [a |-> "x"])
-  /\ Lb!Matches(Lb!Nre("c", ".+"), [a |-> "x"]) /\ ~Lb!Matches(Lb!Nre("c", ".*"), [a |-> "x"])
+  /\ Sx!Matches(Sx!Ne("c", "x"), [a |-> "x"]) /\ ~Sx!Matches(Sx!Ne("c", ""), [a |-> "x"])
+  /\ Sx!Matches(Sx!Nre("c", ".+"), [a |-> "x"]) /\ ~Sx!Matches(Sx!Nre("c", ".*"), [a |-> "x"])
+  \* '.' is not the line feed: the catch-all patterns do not catch a multi-line value
+  /\ ~Sx!Matches(Sx!Re("a", ".*"), [a |-> "\n"]) /\ ~Sx!Matches(Sx!Re("a", ".+"), [a |-> "x\ny"])
+  /\ ~Sx!Matches(Sx!Re("a", ".*"), [a |-> "x\n"]) /\ Sx!Matches(Sx!Nre("a", ".*"), [a |-> "x\ny"])
+  /\ Sx!Matches(Sx!Nre("a", ".+"), [a |-> "\n"]) /\ ~Sx!Matches(Sx!Re("a", "x.y"), [a |-> "x\ny"])
+  /\ ~Sx!Matches(Sx!Re("a", "."), [a |-> "\n"]) /\ Sx!Matches(Sx!Re("a", "."), [a |-> "x"])
+  \* ... the s flag, the escape, the raw literal and the idiom do
+  /\ Sx!Matches(Sx!Re("a", "(?s).+"), [a |-> "x\ny"]) /\ Sx!Matches(Sx!Re("a", "(?s).*"), [a |-> "\n"])
+  /\ ~Sx!Matches(Sx!Re("a", "(?s).+"), << >>)
+  /\ Sx!Matches(Sx!Re("a", "x\\ny"), [a |-> "x\ny"]) /\ Sx!Matches(Sx!Re("a", "x\ny"), [a |-> "x\ny"])
+  /\ Sx!Matches(Sx!Re("a", "(.|\\n)*"), [a |-> "x\ny"]) /\ Sx!Matches(Sx!Re("a", "(.|\\n)*"), [a |-> "x\n"])
+  \* '$' is the end of the text, not the place before a final line feed
+  /\ Sx!Matches(Sx!Re("a", "x$"), [a |-> "x"]) /\ ~Sx!Matches(Sx!Re("a", "x$"), [a |-> "x\n"])
+  /\ Sx!Matches(Sx!Re("a", "^x$"), [a |-> "x"]) /\ ~Sx!Matches(Sx!Re("a", "^x$"), [a |-> "x\n"])
+  \* the alternation is inside the anchoring group
+  /\ Sx!Matches(Sx!Re("a", ".+|x\n"), [a |-> "x\n"]) /\ ~Sx!Matches(Sx!Re("a", ".+|x\n"), [a |-> "x\ny"])
+  \* the universe is not vacuous for the dot / line feed question
+  /\ Cardinality(DotDecides) >= 15
+  /\ \A p \in {".*", ".+", ".", "x.y", "x.*", ".*y"} : \E v \in Sx!Values : <<p, v>> \in DotDecides
   \* AND inside a list, OR across lists
   /\ \A k \in XNames :
        LET ls == XLS[k] IN
-       /\ Lb!MatchesAll(<< >>, ls) /\ ~Lb!MatchesAny(<< >>, ls)
-       /\ \A m1 \in SemCore, m2 \in SemCore :
-            /\ Lb!MatchesAll(<<m1, m2>>, ls) = (Lb!Matches(m1, ls) /\ Lb!Matches(m2, ls))
-            /\ Lb!MatchesAny(<< <<m1>>, <<m2>> >>, ls) = (Lb!Matches(m1, ls) \/ Lb!Matches(m2, ls))
+       /\ Sx!MatchesAll(<< >>, ls) /\ ~Sx!MatchesAny(<< >>, ls)
+       /\ \A m1 \in SemCore \cup SemCoreLF, m2 \in SemCore \cup SemCoreLF :
+            /\ Sx!MatchesAll(<<m1, m2>>, ls) = (Sx!Matches(m1, ls) /\ Sx!Matches(m2, ls))
+            /\ Sx!MatchesAny(<< <<m1>>, <<m2>> >>, ls) = (Sx!Matches(m1, ls) \/ Sx!Matches(m2, ls))
 SemLawsInv == (inp = << >> /\ ps.pc = "idle") => SemLaws
 
 -----------------------------------------------------------------------------
